@@ -233,7 +233,11 @@ func main() {
 		if k, d := verdict(p); k != "" {
 			o.Oracle(k, "gosrc\t"+vh.HexS(string(src)), d)
 		}
-		o.Case(f.Replay, canon(p.a), true)
+		if fs[0] == "gosrc" {
+			o.Case(f.Replay, "skip", true) // two-way case: nothing for the model
+		} else {
+			o.Case(f.Replay, canon(p.a), true)
+		}
 		return
 	}
 	thorough := f.Tier == "thorough"
